@@ -2,10 +2,14 @@
    Proved: the parser model never reaches a panic site for ANY byte string (C06_total), with the
    arithmetic bounds that exclude u8 / u16 overflow; every accepted board passed `validate` and has
    clocks <= 9999, rights < 16, en-passant file < 8.
-   OPEN (kept visible, tied by correspondence + spec monitor): validate = None implies the rules-level
-   `playable` predicate (C06_playable_statement). *)
+   Every board the parser accepts and every board the builder returns is PLAYABLE in the rules-level sense
+   (one king each, <= 16 men a side, side not to move not in check, rights only with king and rook at home,
+   marker only on an empty square behind an enemy pawn on its double-step rank): C06_playable, C06_builder_playable,
+   via the bridge theorem bitboard attack test = mailbox attack test (attacked_by_bridge).
+   Every canonical FEN of a board with the placement invariant, consistent hash and passing validation is
+   accepted and parses back to it (C06_canonical_accepted). *)
 From Coq Require Import NArith List Bool.
-From Chess Require Import base.Bits base.Types base.BitBoard model.Board model.Fen spec.Rules proofs.FenFacts.
+From Chess Require Import base.Bits base.Types base.BitBoard model.Board model.Fen spec.Rules proofs.FenFacts proofs.BridgeFacts proofs.PlayableFacts proofs.FenRoundTrip.
 Import ListNotations.
 Local Open Scope N_scope.
 
@@ -39,5 +43,22 @@ Theorem C06_writer_tail_accepted : forall raw b,
 Proof. exact parse_tail_write_tail. Qed.
 Print Assumptions C06_writer_tail_accepted.
 
-Definition C06_playable_statement : Prop :=
-  forall s b, parse_fen_t s = Ret (POk b) -> playable (abs b) = true.
+Theorem C06_playable : forall s b, parse_fen_t s = Ret (POk b) -> playable (abs b) = true.
+Proof. exact parse_playable. Qed.
+Print Assumptions C06_playable.
+
+Theorem C06_builder_playable : forall b b', BridgeFacts.Part b -> (forall f, b_ep b = Some f -> f < 8) ->
+  build b = inl b' -> playable (abs b') = true.
+Proof. exact build_playable. Qed.
+Print Assumptions C06_builder_playable.
+
+Theorem C06_attack_bridge : forall b c s, BridgeFacts.Part b -> s < 64 ->
+  attacked_by (cells (abs b)) c s = any (attackers_of b c s (all_occ b)).
+Proof. exact attacked_by_bridge. Qed.
+Print Assumptions C06_attack_bridge.
+
+Theorem C06_canonical_accepted : forall b b0, b = update_pin_info b0 -> FenRoundTrip.Part b ->
+  b_rights b < 16 -> (forall f, b_ep b = Some f -> f < 8) -> b_half b <= 9999 -> b_full b <= 9999 ->
+  b_zob b = FenRoundTrip.scratch_piece_hash b -> validate b = None -> parse_fen (write_fen b) = Some b.
+Proof. exact write_parse_roundtrip_built. Qed.
+Print Assumptions C06_canonical_accepted.
